@@ -36,12 +36,12 @@ ASSUMPTIONS = c01.ASSUMPTIONS[:3] + [
     "where the ordering graph has a false cycle (open finding C01-false-cycle) the order inside the cycle depends on dict insertion order, hence on history: follow-up differences on such a location are matched by the C01 signature",
 ]
 BOUNDS = {
-    "quick": "three prefixes with a task writing the list l as a whole and readers inside it (incl. a computed-key read) followed by <=2 operations over {a,c,l0,l1}; histories of <=3 operations (value / expression / += / -= ref / unregister / load / register) over {a,n.x,n.y}, <=2 over {a,n.x,n.y,n.z} and over {a,b,l0,l1}, "
+    "quick": "three prefixes with a task writing the list l as a whole and readers inside it (incl. a computed-key read) followed by <=2 operations over {a,c,l0,l1}; histories of <=3 operations (value / expression / += / -= ref / unregister / load / register / an expression assignment that fails because its evaluation raises) over {a,n.x,n.y}, <=2 over {a,n.x,n.y,n.z} and over {a,b,l0,l1}, "
              "indices/queries/verify compared after every step; follow-up assignment (history manager, refreshed copy, fresh manager) to each location of the universe + one outside it after histories of every length 1..3",
     "thorough": "histories <=4 over the same universes and <=3 over {a,b,n.x,n.y,l0,l1}; both builds",
 }
 OUTSIDE = "longer histories; FunctionTask/LinearKnob histories (covered in C02); copy()"
-REQUIRED_CLASSES = ["compared", "unregister", "load", "followup", "refresh_clone"]
+REQUIRED_CLASSES = ["compared", "unregister", "load", "followup", "refresh_clone", "failed_assignment"]
 SIGNATURES = {
     "false_cycle": lambda cj, case: bool((cj.get("detail") or {}).get("false_cycle_through_loc")),
 }
@@ -49,7 +49,7 @@ PROFILE_CASES = 3
 TASKS_PER_CHILD = 20
 
 
-def list_ops(defs, locs):
+def list_ops(defs, locs, fail=False):
     ops = c01.list_ops(defs, locs, False)
     ops = [o for o in ops if o[0] != "replace"]
     for t in locs:
@@ -69,6 +69,10 @@ def list_ops(defs, locs):
             other = cands[(len(defs) + 1) % len(cands)]
             if other != dsc:
                 ops.append(("loadn", ((t, other), (t, dsc))))
+    for t in (locs if fail else []):
+        # an expression whose evaluation raises (it reads a key that does not exist): the assignment fails;
+        # whatever definition of t the manager reports afterwards is the surviving one
+        ops.append(("exprfail", t, ("add", ("missing",), ("const", 1))))
     if len(locs) >= 2:
         t1, t2 = locs[len(defs) % len(locs)], locs[(len(defs) + 1) % len(locs)]
         c1, c2 = U.candidates(t1, locs, False), U.candidates(t2, locs, False)
@@ -215,9 +219,9 @@ def followup(ex, st, order, L, hist, refreshed):
                           f"after a follow-up assignment to {L}, location {M} of the {kind} manager differs from the fresh manager")
             if not ok:
                 if ex.mode == "sym":
-                    cyc = U.false_cycle_tasks(w.m)
+                    cyc = U.false_cycle_locs(st.defs)
                     ex.cexs[-1].detail = {"history": hist, "assigned": L, "loc": M, "false_cycle_tasks": cyc,
-                                          "false_cycle_through_loc": c01._refname(M) in cyc}
+                                          "false_cycle_through_loc": M in cyc}
                 return False
     return True
 
@@ -265,7 +269,7 @@ class HState(c01.State):
         self.nv += 1
         if self.nv <= len(self.vals):
             return self.vals[self.nv - 1]
-        v = self.ex.int(f"v{self.nv}")
+        v = (1 + self.ex.choose(2)) if self.plain else self.ex.int(f"v{self.nv}")
         self.vals.append(v)
         return v
 
@@ -281,6 +285,37 @@ class HState(c01.State):
             self._touch(t)
             self.hist.append(f"register(FunctionTask({t} = g({p}, 0)) under the ref of {t})")
             self.ex.notes["function_task_by_ref"] = self.ex.notes.get("function_task_by_ref", 0) + 1
+            return
+        if kind == "exprfail":
+            t, dsc = op[1], op[2]
+            ref = U.getref(self.r, t)
+            new = U.build(dsc, self.r, self.fr)
+            old = self.defs.get(t)
+            self.hist.append(f"{t} = {U.show(dsc)}  (evaluation raises)")
+            try:
+                U.assign(self.r, t, new)
+                raised = None
+            except (Abort, Inconclusive):
+                raise
+            except Exception as e:
+                raised = e
+            if not isinstance(raised, KeyError):
+                raise AssertionError(f"assigning an expression that reads a missing key: expected KeyError, got {raised!r}")
+            # surviving definition of t = what the manager reports now (the property fixes consistency, not which one survives)
+            task = self.m.tasks.get(ref)
+            if task is None:
+                self.defs.pop(t, None)
+                self.kinds.pop(t, None)
+                self.order = [x for x in self.order if x != t]
+            elif str(getattr(task, "expr", None)) == str(new):
+                self.defs[t] = dsc
+                self.kinds.pop(t, None)
+                self._touch(t)
+            elif old is not None and (self.kinds.get(t) == "fun" or str(getattr(task, "expr", None)) == str(U.build(old, self.r, self.fr))):
+                pass
+            else:
+                raise AssertionError(f"after a failed assignment the manager reports the definition {task} for {t}: neither the old nor the new one")
+            self.ex.notes["failed_assignment"] = self.ex.notes.get("failed_assignment", 0) + 1
             return
         if kind == "loadn":
             entries = []
@@ -341,10 +376,12 @@ def run_case(ex, case):
     for op in case.get("prefix", []):
         st.apply(c01._tup(op))
     for k in range(case["K"]):
-        ops = list_ops(st.defs, locs)
+        ops = list_ops(st.defs, locs, fail=True)
         if st.kinds:
             # in-place operators need an expression to extend; a function task has none
             ops = [o for o in ops if not (o[0] in ("iadd", "isubref") and o[1] in st.kinds)]
+        # a definition that cannot be evaluated cannot be extended by an in-place operator
+        ops = [o for o in ops if not (o[0] in ("iadd", "isubref") and "missing" in str(st.defs.get(o[1])))]
         i = case["first"] if k == 0 else ex.choose(len(ops))
         if i >= len(ops):
             return
@@ -364,7 +401,7 @@ def run_case(ex, case):
 
 
 def _cases(build, locs, K):
-    n0 = len(list_ops({}, locs))
+    n0 = len(list_ops({}, locs, fail=True))
     return [{"build": build, "locs": locs, "K": K, "first": i} for i in range(n0)]
 
 
